@@ -223,6 +223,17 @@ def _impl_chunk(lines):
     # of the line: a sample is evaluated a second time, after everything else this process has done, and must say the same.
     # A difference is state that survives between calls (module / class level caches, shared tables); the second result is
     # reported, marked, so that it shows up as a disagreement with the model or as a failed property.
+    # objects built with the constructors' defaults must still be as new after everything this process has done with other
+    # objects (mutable default arguments, class-level containers): reported on the last line of the chunk
+    try:
+        prob = impl.pristine_problem() if out and lines[-1].split(".")[0].split(" ")[0] in (
+            "prop", "bf3", "bec2", "text", "hist", "setcfg", "tlv", "cfgid", "bf2") else None
+    except Exception as e:            # noqa: BLE001
+        prob = f"checking new objects raises {type(e).__name__}: {e}"
+    if prob and not out[-1].startswith(("harness-error", "hang")):
+        msg = (f"after the {len(lines)} operations this process evaluated (ending with this one) {prob}: state leaks from one "
+               f"object into objects built later; rerun the check with the same VERIF_SEED to replay")
+        out[-1] = ("FAIL " if lines[-1].startswith("prop.") else "err NewObjectNotPristine ") + msg
     if not os.environ.get("VERIF_NO_REPEAT"):
         for idx in quick_ones[::-1][:40]:
             if out[idx].startswith(("harness-error", "hang")):
